@@ -84,6 +84,90 @@ theorem TraceOK.learn {cnf : CNF} {n0 : Nat} {proofs : List (Nat × List Nat)}
     obtain ⟨c, hc, hcm⟩ := hr
     refine ⟨e.symm, by simpa [e] using hlt, c, clause, replayProof_append _ hc, by simp [e], hcm⟩
 
+theorem replayStep_some {cnf : CNF} {acc : Option Clause} {j : Nat} {c : Clause}
+    (h : replayStep cnf acc j = some c) : j < cnf.length := by
+  unfold replayStep at h
+  split at h
+  · rename_i hd; exact (List.getElem?_eq_some_iff.mp hd).1
+  · cases h
+
+theorem foldl_replayStep_lt {cnf : CNF} : ∀ (rest : List Nat) (acc : Option Clause) (c : Clause),
+    rest.foldl (replayStep cnf) acc = some c → ∀ j ∈ rest, j < cnf.length := by
+  intro rest
+  induction rest with
+  | nil => intro acc c _ j hj; cases hj
+  | cons x xs ih =>
+    intro acc c h j hj
+    simp only [List.foldl_cons] at h
+    cases hs : replayStep cnf acc x with
+    | none => rw [hs, foldl_replayStep_none] at h; cases h
+    | some c1 =>
+      rcases List.mem_cons.mp hj with rfl | hj
+      · exact replayStep_some hs
+      · rw [hs] at h; exact ih _ _ h j hj
+
+/-- a replay that succeeds cites existing clauses only -/
+theorem replayProof_lt {cnf : CNF} {p : List Nat} {c : Clause} (h : replayProof cnf p = some c) :
+    ∀ j ∈ p, j < cnf.length := by
+  unfold replayProof at h
+  split at h
+  · cases h
+  · rename_i i rest
+    split at h
+    · cases h
+    · rename_i c0 hc0
+      intro j hj
+      rcases List.mem_cons.mp hj with rfl | hj
+      · exact (List.getElem?_eq_some_iff.mp hc0).1
+      · exact foldl_replayStep_lt _ _ _ h j hj
+
+/-- `rebuild` produces a clause list against which the proofs check. -/
+theorem rebuild_traceOK (n0 : Nat) : ∀ (ps done : List (Nat × List Nat)) (c sh : CNF),
+    TraceOK c n0 done → rebuild c ps = some sh → TraceOK sh n0 (done ++ ps) := by
+  intro ps
+  induction ps with
+  | nil => intro done c sh ht h; simp only [rebuild, Option.some.injEq] at h; subst h; simpa using ht
+  | cons x xs ih =>
+    intro done c sh ht h
+    obtain ⟨i, p⟩ := x
+    unfold rebuild at h
+    split at h
+    · rename_i hi
+      have hi : i = c.length := by simpa using hi
+      subst hi
+      split at h
+      · rename_i r hr
+        have := ih (done ++ [(c.length, p)]) (c ++ [r]) sh
+          (ht.learn (replayProof_lt hr) ⟨r, hr, fun _ => Iff.rfl⟩) h
+        simpa using this
+      · cases h
+    · cases h
+
+theorem rebuild_snoc : ∀ (ps : List (Nat × List Nat)) (c sh : CNF) (p : List Nat) (r : Clause),
+    rebuild c ps = some sh → replayProof sh p = some r →
+    rebuild c (ps ++ [(sh.length, p)]) = some (sh ++ [r]) := by
+  intro ps
+  induction ps with
+  | nil =>
+    intro c sh p r h hr
+    simp only [rebuild, Option.some.injEq] at h
+    subst h
+    simp [rebuild, hr]
+  | cons x xs ih =>
+    intro c sh p r h hr
+    obtain ⟨i, q⟩ := x
+    unfold rebuild at h
+    simp only [List.cons_append]
+    unfold rebuild
+    split at h
+    · rename_i hi
+      rw [if_pos hi]
+      split at h
+      · rename_i r1 hr1
+        exact ih _ _ _ _ h hr
+      · cases h
+    · cases h
+
 theorem sameSet_of_mem {a b : Clause} (h : ∀ l, l ∈ a ↔ l ∈ b) : sameSet a b = true := by
   simp only [sameSet, Bool.and_eq_true, List.all_eq_true, List.contains_iff_mem]
   exact ⟨fun l => (h l).mp, fun l => (h l).mpr⟩
